@@ -103,6 +103,9 @@ package keeper
 //@ axiom transient_gas_range: forall l int, i int :: 0 <= trGas[l][i] && trGas[l][i] < pow2(64)
 //@ axiom transient_logs_range: forall l int, i int :: 0 <= trLogs[l][i] && trLogs[l][i] < pow2(64)
 
+// 64-bit unsigned addition of two in-range operands
+//@ ghost func u64add(a int, b int) int = a + b >= pow2(64) ? a + b - pow2(64) : a + b
+
 // running sums over the first n entries
 //@ ghost func sumTo(m map[int]int, n int) int = n <= 0 ? 0 : sumTo(m, n - 1) + m[n - 1]
 
@@ -228,6 +231,7 @@ package keeper
 //@   ensures[C04.supply_evm_denom] err == nil ==> bankSupply[layer(ctx)][evmDenomOf[layer(ctx)]] <= old(bankSupply[layer(ctx)][evmDenomOf[layer(ctx)]]) + (trFlagPaid[layer(ctx)] ? (txGas(tx) - res.GasUsed) * min(txTipCap(tx) + fmBaseFee[layer(ctx)], txFeeCap(tx)) : 0)
 //@   ensures[C04.supply_other_denoms] err == nil ==> (forall den string :: den != evmDenomOf[layer(ctx)] ==> bankSupply[layer(ctx)][den] <= old(bankSupply[layer(ctx)][den]))
 //@   ensures[C05.error_no_persistent_change,C04.error_no_persistent_change] err != nil ==> (bankBal[layer(ctx)] == old(bankBal[layer(ctx)]) && bankSupply[layer(ctx)] == old(bankSupply[layer(ctx)]) && acctSeq[layer(ctx)] == old(acctSeq[layer(ctx)]))
+//@   ensures[C13.receipt_stored] err == nil ==> (trReceipt[layer(ctx)][max(1, trCount[layer(ctx)]) - 1] == bytes(res.MarshalledReceipt) && trCount[layer(ctx)] == old(trCount[layer(ctx)]))
 //@   ensures[C05.consensus_gas_is_receipt_gas] err == nil ==> (res != nil && gmConsumed[payload(ctx.GasMeter())] == res.GasUsed && res.GasUsed <= txGas(tx) && trGas[layer(ctx)][max(1, trCount[layer(ctx)]) - 1] == res.GasUsed)
 //@   ensures[C05.consume_all_on_core_error] (err != nil && coinbaseKnown(layer(ctx), hdr(ctx)) && txSigOk(tx)) ==> gmConsumed[payload(ctx.GasMeter())] == gmLimit(payload(ctx.GasMeter()))
 //@   panics any
@@ -261,6 +265,7 @@ package keeper
 // msg_server.go — the message handler of MsgEthereumTx
 // ---------------------------------------------------------------------------------------------
 //@ import context "context"
+//@ import crypto "github.com/ethereum/go-ethereum/crypto"
 //@ import sdkmath "cosmossdk.io/math"
 //@ import cmtbytes "github.com/cometbft/cometbft/libs/bytes"
 
@@ -295,5 +300,20 @@ package keeper
 //@   ensures[C06.nonce_exactly_plus_one] err == nil ==> (acctSeq[layer(sdk.UnwrapSDKContext(goCtx))][bech32Bytes(msg.From)] == decNonce(bytes(msg.MarshalledTx)) + 1 && !trFlagNonce[layer(sdk.UnwrapSDKContext(goCtx))])
 //@   ensures[C06.nonce_matched_sequence] err == nil ==> old(acctSeq[layer(sdk.UnwrapSDKContext(goCtx))][bech32Bytes(msg.From)]) == decNonce(bytes(msg.MarshalledTx)) + (old(trFlagNonce[layer(sdk.UnwrapSDKContext(goCtx))]) ? 1 : 0)
 //@   ensures[C04.tx_conserves_supply] err == nil ==> (forall den string :: bankSupply[layer(sdk.UnwrapSDKContext(goCtx))][den] <= old(bankSupply[layer(sdk.UnwrapSDKContext(goCtx))][den]))
+//@   at call GetSdkEventForReceipt@1 assert[C13.event_tx_index] receipt.TransactionIndex == max(1, trCount[layer(ctx)]) - 1
+//@   at call GetSdkEventForReceipt@1 assert[C13.event_gas_used] receipt.GasUsed == response.GasUsed && response.GasUsed == trGas[layer(ctx)][max(1, trCount[layer(ctx)]) - 1]
+//@   at call GetSdkEventForReceipt@1 assert[C13.event_receipt_is_stored_receipt] rlpReceipt(receipt.Type, receipt.Status, receipt.CumulativeGasUsed, receipt.Bloom, base(receipt.Logs), off(receipt.Logs), len(receipt.Logs)) == trReceipt[layer(ctx)][max(1, trCount[layer(ctx)]) - 1]
+//@   at call GetSdkEventForReceipt@1 assert[C13.event_log_index] len(receipt.Logs) > 0 ==> receipt.Logs[0].Index == sumTo(trLogs[layer(ctx)], max(1, trCount[layer(ctx)]) - 1) % pow2(64)
+//@   at call GetSdkEventForReceipt@1 assert[C13.event_contract_address] (txIsCreate(ethTx) && response.VmError == "") ? receipt.ContractAddress == crypto.CreateAddress(bytesAddr(bech32Bytes(msg.From)), txNonce(ethTx)) : receipt.ContractAddress == zero(type(common.Address))
 //@   ensures[C05.consensus_gas_is_receipt_gas] err == nil ==> (res != nil && gmConsumed[payload(sdk.UnwrapSDKContext(goCtx).GasMeter())] == res.GasUsed && res.GasUsed <= decGas(bytes(msg.MarshalledTx)))
 //@   panics any
+
+// fillLogIndexes: the logs get the consecutive (64-bit) indices start, start+1, ...; nothing else is written.
+//@ func fillLogIndexes(logs []*ethtypes.Log, startLogIndex uint)
+//@   requires forall a int :: (0 <= a && a < len(logs)) ==> logs[a] != nil
+//@   requires forall a int, b int :: (0 <= a && a < b && b < len(logs)) ==> logs[a] != logs[b]
+//@   modifies fieldof(type(ethtypes.Log), Index)
+//@   ensures[C13.log_indexes_consecutive] forall j int :: (0 <= j && j < len(logs)) ==> logs[j].Index == u64add(startLogIndex, j)
+//@   panics never
+//@ loop 1
+//@   invariant -1 <= rangeindex && rangeindex < len(logs) && (forall j int :: (0 <= j && j <= rangeindex) ==> logs[j].Index == u64add(startLogIndex, j))
